@@ -3,14 +3,24 @@
 #include "common/vh.hpp"
 #include "common/c10_util.hpp"
 #include "common/c10_inc_kcalc.hpp"
+#include "common/c10_inc_objs.hpp"
 using namespace vh;
 
 static void run_case(Rng& r, Ctx& c)
 {
-  int kind = r.irange(0, 0);
+  int kind = r.irange(0, 9);
   switch (kind)
   {
-    case 0: c10k::run(r, c); break;
+    case 0:
+    case 1: c10k::run(r, c); break;
+    case 2:
+    case 3: c10i::runModel(r, c); break;
+    case 4: c10i::runNeigh(r, c); break;
+    case 5:
+    case 6: c10i::runKsys(r, c); break;
+    case 7: c10i::runVario(r, c); break;
+    case 8: c10i::runMatrix(r, c); break;
+    case 9: c10i::runDb(r, c); break;
   }
 }
 int main(int argc, char** argv) { return run_main(argc, argv, "C10incremental", run_case); }
